@@ -291,6 +291,7 @@ func (p *Pool) And(as ...*Term) *Term {
 	if len(out) == 1 {
 		return out[0]
 	}
+	sort.Slice(out, func(i, j int) bool { return out[i].id < out[j].id })
 	return p.intern(&Term{Op: "and", Args: out, Sort: BoolSort})
 }
 
@@ -335,6 +336,7 @@ func (p *Pool) Or(as ...*Term) *Term {
 			return r
 		}
 	}
+	sort.Slice(out, func(i, j int) bool { return out[i].id < out[j].id })
 	return p.intern(&Term{Op: "or", Args: out, Sort: BoolSort})
 }
 
